@@ -57,14 +57,16 @@ def runOutcome (env : Env) (cfg : Cfg) (seqNr nAos : Nat) (prev : Outcome) (obs 
     | .err _ => .err "encode-prev"
     | .panic => .panic
 
-def runReports (cfg : Cfg) (missingFormats failChannels : List Nat) (seqNr : Nat) (o : Outcome) : List ReportOut :=
-  reports cfg {} (fun r fmt => !missingFormats.contains fmt && !failChannels.contains r.channelID) seqNr o
+def runReports (cfg : Cfg) (missingFormats failChannels : List Nat) (seqNr : Nat) (o : Outcome) (strict : Bool := false) :
+    List ReportOut :=
+  reports cfg {} (fun r fmt => !missingFormats.contains fmt && !failChannels.contains r.channelID
+    && (!strict || r.values.all Option.isSome)) seqNr o
 
 
 /-- run a threaded history; returns the per-round JSON results and the retirement report of the last
     retired round (if any) -/
-def runHistory (env : Env) (cfg : Cfg) (mf : List Nat) (start : Outcome) (startSeq : Nat) (rounds : List Json) :
-    P (Array Json × Option RetirementReport) := do
+def runHistory (env : Env) (cfg : Cfg) (mf : List Nat) (start : Outcome) (startSeq : Nat) (rounds : List Json)
+    (strict : Bool := false) : P (Array Json × Option RetirementReport) := do
   let mut cur := start
   let mut outs : Array Json := #[]
   let mut seq := startSeq
@@ -75,7 +77,7 @@ def runHistory (env : Env) (cfg : Cfg) (mf : List Nat) (start : Outcome) (startS
     match (outcome env cfg {} n cur obs).bind (codecRoundTrip cfg) with
     | .ok o =>
       cur := o
-      let reps := runReports cfg mf [] seq o
+      let reps := runReports cfg mf [] seq o strict
       for x in reps do
         match x with
         | .retirement r' => rr := some r'
@@ -189,7 +191,8 @@ def handleLLO (op : String) (j : Json) : Option (P Json) :=
           | .error _ => .err "bad-start"
       match start with
       | .ok o0 =>
-        let (outs, _) ← runHistory env cfg mf o0 (← getNat j "startSeqNr") rounds
+        -- strictCodec: the report codec refuses a report with a missing value (as every real codec does)
+        let (outs, _) ← runHistory env cfg mf o0 (← getNat j "startSeqNr") rounds ((fldD j "strictCodec") == Json.bool true)
         pure (Json.mkObj [("ok", .arr outs)])
       | _ => pure (Json.mkObj [("err", "encode-start")]))
   | "llo.handover" => some (do
